@@ -26,6 +26,10 @@ type Scenario struct {
 	Slots   []string   `json:"slots"`            // child slots offered per parent (default a,b,H)
 	Attach  []int      `json:"attach,omitempty"` // base worlds: base heights (relative to base tip, <= 0) where forks may start
 	Probes  bool       `json:"probes"`           // add duplicate / orphan submissions as operations
+	Grows   int        `json:"max_grow_ops,omitempty"` // bound on "grow" operations (extend the best chain by GrowBy headers at once)
+	GrowBy  int        `json:"grow_by,omitempty"`
+	GrowSides  int     `json:"max_growside_ops,omitempty"` // bound on "growside" operations (extend the heaviest side leaf by GrowSideBy double-work headers)
+	GrowSideBy int     `json:"growside_by,omitempty"`
 	OnlyTipParents int `json:"only_tip_parents,omitempty"` // offer children only for the last k accepted headers (tall prefix chains)
 	ForeignProbes bool `json:"foreign_probes,omitempty"` // offer the synthetic foreign split headers with unknown parents too
 	WorkProbe bool     `json:"work_probe,omitempty"` // add a submission with proof-of-work checking switched on
@@ -170,6 +174,12 @@ func (sc *Scenario) enabled(w *hdr.World, hist []hdr.Op) []hdr.Op {
 				ops = append(ops, hdr.Op{K: "sub", L: l})
 			}
 		}
+	}
+	if countOps(hist, "grow") < sc.Grows {
+		ops = append(ops, hdr.Op{K: "grow", D: sc.GrowBy})
+	}
+	if countOps(hist, "growside") < sc.GrowSides {
+		ops = append(ops, hdr.Op{K: "growside", D: sc.GrowSideBy})
 	}
 	if countOps(hist, "subscribe") < sc.Subs {
 		ops = append(ops, hdr.Op{K: "subscribe"})
